@@ -12,6 +12,9 @@ impl Table for Tpm2T {
     fn name(&self) -> &'static str {
         "tpm2"
     }
+    fn unjudged(&self, _ops: &[Op]) -> Vec<usize> {
+        vec![8] // table Revision: pinned to the baseline, not judged
+    }
     fn kinds(&self) -> &'static [&'static str] {
         &["set_log_area"]
     }
@@ -137,6 +140,9 @@ pub fn ts_reference(c: &Ctor, ops: &[Op]) -> Vec<u8> {
 impl Table for TpmServer {
     fn name(&self) -> &'static str {
         "tcpa_server"
+    }
+    fn unjudged(&self, _ops: &[Op]) -> Vec<usize> {
+        vec![56, 57] // TCG spec revision BCD bytes: pinned to the baseline, not judged
     }
     fn kinds(&self) -> &'static [&'static str] {
         &TS_KINDS
@@ -336,6 +342,14 @@ pub const FACS_FIELDS: [(&str, usize, usize); 7] =
 impl Table for Facs {
     fn name(&self) -> &'static str {
         "facs"
+    }
+    fn unjudged(&self, ops: &[Op]) -> Vec<usize> {
+        // default FACS version: not judged unless the caller set it (shape 5 = version)
+        if ops.iter().any(|o| o.shape == 5) {
+            vec![]
+        } else {
+            vec![32]
+        }
     }
     fn kinds(&self) -> &'static [&'static str] {
         &["set_field"]
@@ -623,6 +637,14 @@ pub fn fadt_reference(c: &Ctor, ops: &[Op]) -> Vec<u8> {
 impl Table for Fadt {
     fn name(&self) -> &'static str {
         "fadt"
+    }
+    fn unjudged(&self, ops: &[Op]) -> Vec<usize> {
+        // FADT minor version follows the ACPI release the crate targets: not judged unless the caller set it
+        if ops.iter().any(|o| o.k == F_FIELD && FADT_FIELDS[o.shape as usize].1 == 131) {
+            vec![]
+        } else {
+            vec![131]
+        }
     }
     fn kinds(&self) -> &'static [&'static str] {
         &["flag", "preferred_pm_profile", "acpi_enable", "acpi_disable", "dsdt_32", "dsdt_64", "firmware_ctrl_32", "firmware_ctrl_64", "gpe_info", "set_field"]
